@@ -1,2 +1,12 @@
+//! Constants dump (C12).
 use crate::*;
-pub fn register(_m: &mut HashMap<&'static str, OpFn>) {}
+
+pub fn register(m: &mut HashMap<&'static str, OpFn>) {
+    m.insert("k.dump", |_a| {
+        let mut o = Vec::new();
+        for (name, l) in verif::constants() {
+            o.push(format!("{}={}", name, l.iter().map(|x| format!("{:x}", x)).collect::<Vec<_>>().join(",")));
+        }
+        o
+    });
+}
